@@ -252,6 +252,57 @@ pub fn run(tier: &str) -> i32 {
             rep.violation(k, d, json!({"kind":"window","n":n,"comp":cname(c)}));
         }
     }
+    // metadata above the sizes a reader might cap (16 MiB, 32 MiB)
+    for mib in [17usize, 33] {
+        let mut l = Logical::new(Compression::ZStd);
+        l.tiles.insert(1, b"t".to_vec());
+        l.meta.insert("big".into(), serde_json::Value::String("0123456789abcdef".repeat(mib * 65_536)));
+        l.meta.insert("k".into(), json!(1));
+        rep.eval(2);
+        // one write, both readers, full range (the small-archive clauses cover the rest)
+        match write_lib(&l, Api::Sync) {
+            Ok(b) => {
+                if let Some((k, d)) = readers_agree(&b, (Bound::Unbounded, Bound::Unbounded), &[1]) {
+                    rep.violation(k, format!("[{mib} MiB metadata] {d}"), json!({"kind":"huge-metadata","mib":mib}));
+                }
+            }
+            Err(e) => rep.violation("write-outcomes-differ", format!("[{mib} MiB metadata] {e}"), json!({"kind":"huge-metadata","mib":mib})),
+        }
+    }
+    rep.count("huge_metadata_archives", 2);
+    // damaged directories: whatever the range filter is (also empty and inverted), both twins must refuse alike
+    {
+        use crate::spec::archive::{encode_foreign, Layout, Node};
+        let mut nd = 0u64;
+        for comp in 1..=4u8 {
+            let f = encode_foreign(&[Node::Tile(SEntry::new(0, 0, 2, 1)), Node::Leaf(5, vec![Node::Tile(SEntry::new(5, 0, 2, 2))])], b"AA", None, comp, &Layout::default(), SHeader { tile_type: 2, tile_compression: 1, ..SHeader::default() });
+            let h = f.header.clone();
+            for (what, pos) in [("root", h.root_offset as usize), ("leaf", h.leaf_offset as usize)] {
+                for garbage in [[0xFFu8, 0xFF, 0xFF, 0xFF], [0x80, 0x80, 0x80, 0x80]] {
+                    let mut b = f.bytes.clone();
+                    for (i, g) in garbage.iter().enumerate() {
+                        if pos + i < b.len() {
+                            b[pos + i] = *g;
+                        }
+                    }
+                    for r in [(Bound::Unbounded, Bound::Unbounded), (Bound::Included(5), Bound::Excluded(5)), (Bound::Included(7), Bound::Included(3)), (Bound::Unbounded, Bound::Excluded(0)), (Bound::Included(6), Bound::Unbounded)] {
+                        nd += 1;
+                        if let Some((k, d)) = readers_agree(&b, r, &[0, 5, 6]) {
+                            rep.violation(format!("{k}/damaged-{what}"), format!("[codec {comp}, {what} directory overwritten with {garbage:02x?}, range {r:?}] {d}"), json!({"kind":"damaged","comp":comp,"what":what,"range":format!("{r:?}")}));
+                        }
+                        let c = comp_of_code(comp).unwrap();
+                        let rs = call(|| read_directories(&mut std::io::Cursor::new(&b), c, (h.root_offset, h.root_length), h.leaf_offset, r).map(|m| m.len()));
+                        let ra = call(|| block_on(read_directories_async(&mut futures::io::Cursor::new(&b), c, (h.root_offset, h.root_length), h.leaf_offset, r)).map(|m| m.len()));
+                        if rs.kind() != ra.kind() || (rs.is_ok() && rs != ra) {
+                            rep.violation(format!("read-directories-outcomes-differ/damaged-{what}"), format!("[codec {comp}, range {r:?}] sync {} vs async {}", rs.describe(), ra.describe()), json!({"kind":"damaged","comp":comp,"what":what,"range":format!("{r:?}")}));
+                        }
+                    }
+                }
+            }
+        }
+        rep.eval(nd * 2);
+        rep.count("damaged_directory_cases", nd);
+    }
     // (b) foreign product
     let specs = foreign::product(thorough);
     let bad: Vec<(usize, Vec<(String, String)>)> = specs
